@@ -225,21 +225,18 @@ impl UnitSearchDirsBuilder {
     fn resolve_unit_dir_admin_user() -> PathBuf {
         let unit_dir_admin_user = PathBuf::from(UNIT_DIR_ADMIN).join("users");
 
-        if unit_dir_admin_user.is_symlink() {
-            match unit_dir_admin_user.read_link() {
-                Ok(resolved_path) => resolved_path,
-                Err(err) => {
-                    if err.kind() != ErrorKind::NotFound {
-                        debug!(
-                            "Error occurred resolving path {:?}: {err}",
-                            &unit_dir_admin_user
-                        );
-                    }
-                    unit_dir_admin_user
+        // the same resolution as for the walk of this directory
+        match Self::resolve_search_dir(&unit_dir_admin_user) {
+            Ok(resolved_path) => resolved_path,
+            Err(err) => {
+                if err.kind() != ErrorKind::NotFound {
+                    debug!(
+                        "Error occurred resolving path {:?}: {err}",
+                        &unit_dir_admin_user
+                    );
                 }
+                unit_dir_admin_user
             }
-        } else {
-            unit_dir_admin_user
         }
     }
 
@@ -247,7 +244,11 @@ impl UnitSearchDirsBuilder {
     /// it is a symbolic link.
     fn resolve_search_dir(path: &Path) -> std::io::Result<PathBuf> {
         if path.is_symlink() {
-            path.read_link()
+            // a relative link target is relative to the directory that holds the link
+            path.read_link().map(|target| match path.parent() {
+                Some(parent) => parent.join(target),
+                None => target,
+            })
         } else {
             Ok(path.to_owned())
         }
